@@ -4,7 +4,8 @@ from .. import cfgrun, cfgstream, core, cutter
 RULE = ("valid and invalid texts of the C01/C05 corpus (with %define/uses mixed in), 1..3 balanced line ranges cut out "
         "into fragments (nested cuts allowed) placed in the same / a sub / the parent directory of the includer on a real "
         "scratch tree, or reached through a %define-d absolute directory or URL, or the same fragment reached twice "
-        "(twice in one file, through two wrappers = a diamond); loadConfig(path of cut text) vs loadConfigFile(inline text); plus unbalanced cuts which must be "
+        "(twice in one file, through two wrappers = a diamond); the cut text loaded by absolute path / relative path / file: URL / open file object (opened by absolute or relative "
+        "path) vs loadConfigFile(inline text); plus unbalanced cuts which must be "
         "rejected; non-trivial = at least one cut applied; distinct by (schema, text, cut)")
 
 
@@ -58,7 +59,9 @@ def run(ctx):
         d = cfgstream.Case()
         d.sd, d.real, d.elab, d.hnames = c.sd, c.real, c.elab, c.hnames
         d.lines, d.files, d.faults = main, files, c.faults
-        d.meta = {"main": "m/main.conf", "placements": placements, "inline": c.lines}
+        d.meta = {"main": "m/main.conf", "placements": placements, "inline": c.lines,
+                  "entry": rng.choice(["abs", "abs", "rel", "url", "fileobj-abs", "fileobj-rel"])}
+        ctx.count("entry:" + d.meta["entry"])
         inl.append(c)
         cuts.append(d)
         for _, _, where, _, _ in placements:
